@@ -525,15 +525,11 @@ def _classify_source(repo, func, cfg, flow, node, v, seq):
         return None
     ap = path_of(v)
     if ap == seq + '.subproof.items[-1].th':
-        # must be dominated by a loop over seq.subproof.items that re-checks every item
-        for it in cfg.nodes_of_kind('iter'):
-            if path_of(it.ast.iter) == seq + '.subproof.items' and isinstance(it.ast.target, ast.Name):
-                v_ = it.ast.target.id
-                rec = [c for c in ast.walk(it.ast) if isinstance(c, ast.Call) and
-                       call_name(c) == 'self.' + func.name and len(c.args) >= 2 and is_name(c.args[1], v_)]
-                if rec and cfg.dominates(it, node) and not any(
-                        isinstance(x, (ast.Break, ast.Continue, ast.If)) for s in it.ast.body for x in ast.walk(s)):
-                    return 'checked sub-proof'
+        # must be dominated by a check of every item of seq.subproof.items (inline loop or the block helper)
+        from .checker_blocks import checks_block
+        for b in checks_block(repo, cfg, seq + '.subproof.items', None):
+            if cfg.dominates(b, node):
+                return 'checked sub-proof'
         return None
     return None
 
